@@ -58,17 +58,84 @@ def rk_raw_contract(I, inst, st, args):
     return out
 
 
+def type_mentions(P, tid, paths, seen=None, depth=0):
+    """does type tid (through refs, fields, union fields) contain an ADT whose path is in `paths`?"""
+    seen = set() if seen is None else seen
+    if tid in seen or depth > 8:
+        return set()
+    seen.add(tid)
+    ty = P.types[tid]
+    k = ty['kind']
+    out = set()
+    if k in ('ref', 'ptr'):
+        return type_mentions(P, ty['to'], paths, seen, depth + 1)
+    if k == 'adt':
+        if ty['path'] in paths:
+            out.add(ty['path'])
+        for v in ty['variants']:
+            for f in v['fields']:
+                out |= type_mentions(P, f['ty'], paths, seen, depth + 1)
+    elif k == 'tuple':
+        for f in ty['fields']:
+            out |= type_mentions(P, f, paths, seen, depth + 1)
+    elif k in ('slice', 'array'):
+        out |= type_mentions(P, ty['elem'], paths, seen, depth + 1)
+    return out
+
+
+_PAIRS = {}
+
+
+def pair_alternatives(P):
+    from . import unionpair
+    k = id(P)
+    if k not in _PAIRS:
+        _PAIRS[k] = unionpair.pairs(P)
+    return _PAIRS[k]
+
+
+def with_alts(alts, contract):
+    """wrap a contract so that the chosen (fn, union field) alternatives are installed in the models"""
+    def c(I, inst, st, args_unused):
+        I.models.alts = dict(alts)
+        # the arguments must be re-created under the alternatives (they were made before the hook was set)
+        from .e2run import fresh_args
+        args = fresh_args(I, inst, st)
+        if contract:
+            args = contract(I, inst, st, args)
+        return args
+    return c
+
+
 def variants_for(P, inst):
     """[(variant name, contract or None, post-check or None)]"""
     p = inst.path
+    base = None
+    name = 'any'
     if inst.is_unsafe_fn:
+        name = 'contract'
         if re.search(r'^arch::all::rabinkarp::(Finder|FinderRev)::(find_raw|rfind_raw)$', p):
-            return [('contract', rk_raw_contract, None)]
-        if re.search(r'::(find_raw|rfind_raw|count_raw)$', p):
-            return [('contract', raw_range(inst.arg_count - 2, inst.arg_count - 1), None)]
-        if p == 'arch::all::is_equal_raw':
-            return [('contract', is_equal_raw_contract, None)]
-        if p.endswith('::new_unchecked'):
-            return [('contract', None, None)]
-        return [('UNKNOWN-CONTRACT', None, None)]
-    return [('any', None, None)]
+            base = rk_raw_contract
+        elif re.search(r'::(find_raw|rfind_raw|count_raw)$', p):
+            base = raw_range(inst.arg_count - 2, inst.arg_count - 1)
+        elif p == 'arch::all::is_equal_raw':
+            base = is_equal_raw_contract
+        elif p.endswith('::new_unchecked'):
+            base = None
+        else:
+            name = 'UNKNOWN-CONTRACT'
+    # I-SRCH / I-PRE alternatives: one analysis variant per (function, union field) pairing
+    pairs = pair_alternatives(P)
+    mentioned = set()
+    for i in range(1, inst.arg_count + 1):
+        mentioned |= type_mentions(P, inst.locals[i], set(pairs))
+    if not mentioned:
+        return [(name, base, None)]
+    out = []
+    combos = [{}]
+    for path in sorted(mentioned):
+        combos = [dict(c, **{path: alt}) for c in combos for alt in pairs[path]]
+    for c in combos:
+        label = name + ':' + ','.join(f"{k.rsplit('::', 1)[1]}={v[0].rsplit('::', 1)[1]}" for k, v in sorted(c.items()))
+        out.append((label, with_alts(c, base), None))
+    return out
